@@ -516,15 +516,15 @@ Definition one_body (rec : hmsg -> hmsg -> A (bool * hmsg * hmsg)) (f : field) (
 
 Lemma h_merge_slot_one_eq : forall rec md lu0 f e lh lv eu lu,
   h_merge_slot plan rec md lu0 f e (HOne lh lv) eu lu =
-  match f_label f with
-  | LOptional | LNone =>
-      match e with
-      | HOne eh ev => one_body rec f eh ev lh lv eu lu
-      | _ => ret (true, e, HOne lh lv, eu, lu)
-      end
+  match e with
+  | HOne eh ev =>
+      if label_eqb (f_label f) LOptional || label_eqb (f_label f) LNone ||
+         (label_eqb (f_label f) LRequired && ftype_eqb (f_type f) TMessage)
+      then one_body rec f eh ev lh lv eu lu
+      else ret (true, e, HOne lh lv, eu, lu)
   | _ => ret (true, e, HOne lh lv, eu, lu)
   end.
-Proof. intros. unfold h_merge_slot, one_body. destruct (f_label f), e; reflexivity. Qed.
+Proof. intros. unfold h_merge_slot, one_body. destruct e; reflexivity. Qed.
 
 Lemma field_ok_singular_quant : forall n f, field_ok n f = true -> f_label f = LOptional \/ f_label f = LNone ->
   f_quant f <> QCount.
@@ -533,8 +533,15 @@ Proof.
   rewrite Hq in H. destruct Hl as [Hl|Hl]; rewrite Hl in H; discriminate H.
 Qed.
 
+(* a singular field (optional, implicit presence, or required) has no count quantifier *)
+Lemma field_ok_nonrep_quant : forall n f, field_ok n f = true -> f_label f <> LRepeated -> f_quant f <> QCount.
+Proof.
+  intros n f H Hl Hq. unfold field_ok in H. rewrite !andb_true_iff in H. destruct H as [[[_ H] _] _].
+  rewrite Hq in H. destruct (f_label f); try discriminate H. apply Hl. reflexivity.
+Qed.
+
 Lemma merge_one_body : forall rec md lu0 nu n f fs' eh ev lh lv eu lu R,
-  field_ok n f = true -> f_label f = LOptional \/ f_label f = LNone ->
+  field_ok n f = true -> f_label f <> LRepeated ->
   hslot_ok wt true nu f (HOne eh ev) = true -> hslot_ok wt true nu f (HOne lh lv) = true ->
   uok md eu -> uok md lu -> uinv lu0 (f :: fs') eu lu ->
   val_all (rec_good rec) lv ->
@@ -550,7 +557,7 @@ Proof.
     + exact Hrec.
     + right. exact Hcl.
     + intros Hf. discriminate Hf.
-    + intros Hz Hq. apply Hhl; [|exact Hz]. pose proof (field_ok_singular_quant n f Hfo Hlab) as Hnq.
+    + intros Hz Hq. apply Hhl; [|exact Hz]. pose proof (field_ok_nonrep_quant n f Hfo Hlab) as Hnq.
       destruct (f_quant f) as [| |g|] eqn:EQ; try reflexivity; try contradiction. exfalso. apply (Hnc g). reflexivity.
     + intros em lm -> ->. destruct (hcell_ok_msg_inv _ _ _ Hce) as (_ & We & De).
       destruct (hcell_ok_msg_inv _ _ _ Hcl) as (_ & Wl & Dl). repeat split; try assumption. congruence.
@@ -582,9 +589,10 @@ Lemma merge_slot_one : forall rec md lu0 nu n f fs' e lh lv eu lu R,
         (slot_post md lu0 nu f fs' eu lu R).
 Proof.
   intros rec md lu0 nu n f fs' e lh lv eu lu R Hfo He Hl Hue Hul Hinv Hrec. rewrite h_merge_slot_one_eq.
-  destruct (f_label f) eqn:EL; try (apply slot_same; assumption);
-    (destruct e as [eh ev|earr|ge]; try (apply slot_same; assumption));
-    apply (merge_one_body rec md lu0 nu n); try assumption; rewrite EL; auto.
+  destruct e as [eh ev|earr|ge]; try (apply slot_same; assumption).
+  match goal with |- hoare _ (if ?c then _ else _) _ => destruct c end; [|apply slot_same; assumption].
+  apply (merge_one_body rec md lu0 nu n); try assumption.
+  destruct (hslot_ok_one_inv _ _ _ _ _ _ He) as (Hnr & _). exact Hnr.
 Qed.
 
 (* ---------- a member of a oneof *)
